@@ -19,7 +19,7 @@ textbook formulas in exact rationals / math.log and under shuffling; p-values of
 Cases: n = 2..25 forecasts x m = 1..12 members (quick) drawn from value grids whose distinct values are
 separated by far more than the tie tolerance: heavy ties (4 levels), integer / decimal grids, negative values,
 groups of identical ensembles with permuted members, shifted (perfectly / inversely ordered) ensembles, constant
-forecasts, magnitudes up to 1e17, eps in {1e-6 default, 1e-7, 1e-4}; exhaustive tie patterns over 4 values for
+forecasts, magnitudes up to 1e17 (products) and offsets 1e4 .. 1e12 (sums: spread tiny relative to the values), eps in {1e-6 default, 1e-7, 1e-4}; exhaustive tie patterns over 4 values for
 (n, m) = (2, 2), (3, 1) (quick) and (3, 2) (thorough); a large ensemble (m = 7072) pair differing by one
 comparison; very large ensembles m = 46340, 46341, 65536 (thorough: 92683, 131072) x n = 2..3, shifted / reversed /
 random / interleaved, where any int product of the sizes would overflow; members and samples are re-ordered at
@@ -117,13 +117,21 @@ def gen_ens(rng, nmax, mmax):
         scale = rng.choice([1e17, 1e16, 3e18, 1e-2 if step >= 0.25 else 1.0, 1e6]) if gkind != "fine" else rng.choice([1.0, 1e17])
     gap = step * scale
     sim = K.astype(float) * gap
+    # large-magnitude affine images x -> off + x: the spread of an ensemble is then tiny RELATIVE to its values (1e-5 and
+    # far less) while the members stay separated by far more than the tie tolerance; equal levels stay bit-equal
+    off = 0.0
+    if scale == 1.0 and rng.random() < 0.25:
+        cands = [o for o in (1e4, 1e6, -1e6, 2.5e7, 1e9, -3e9, 1e12) if float(np.spacing(abs(o))) * 1000 <= gap]
+        if cands:
+            off = rng.choice(cands)
+            sim = off + sim
     eps = 1e-6
     if rng.random() < 0.25:
         eps = rng.choice([1e-7, 1e-4, 1e-6])
     if gap < 20 * eps:
         eps = 1e-6 if gap >= 1.9e-6 else gap / 2
-    return {"obs": obs, "sim": sim, "eps": eps, "gen": f"{gkind}/{shape}" + ("/scaled" if scale != 1.0 else ""),
-            "gap": gap}
+    return {"obs": obs, "sim": sim, "eps": eps,
+            "gen": f"{gkind}/{shape}" + ("/scaled" if scale != 1.0 else "") + ("/offset" if off != 0.0 else ""), "gap": gap}
 
 
 # ----------------------------------------------------------------------------------------------
@@ -176,6 +184,8 @@ MAPS = {
     "cubic": lambda x, s: (x / s) ** 3,
     "affine": lambda x, s: 2.5 * x + 3.0 * s,
     "affine_big": lambda x, s: 1e17 * x,
+    "offset_1e6": lambda x, s: x + 1e6 * s,
+    "offset_1e9": lambda x, s: 0.5 * x - 1e9 * s,
 }
 
 
